@@ -121,7 +121,10 @@ def who_may_call(ctx, rid, name, allowed, what):
 def who_may_write(ctx, rid, field, allowed, what):
     """Every write of `field` lies in a function listed in `allowed` {fn name: reason}."""
     n = 0
+    cls = field.rsplit('::', 1)[0]
     for f, e, kind, rhs in field_writes(ctx.prog, field):
+        if e.get('init') and f.cls == cls and f.d.get('ctor') and f.name not in allowed:
+            continue            # member initialisation in the class's own constructor
         n += 1
         ctx.check(rid, f.name in allowed, f.name, 'write:%s' % field, f.where(e),
                   '%s: %s written (%s) in %s (%s)' % (what, field, kind, f.name,
@@ -299,7 +302,7 @@ def origins(f, d, depth=0, seen=None):
     (flow-insensitive).  Iterator/range-for plumbing is resolved to {'k':'elem','of':<container>}."""
     if seen is None:
         seen = set()
-    d = strip(d)
+    d = unwrap_conv(d)
     if not isinstance(d, dict):
         return []
     k = d.get('k')
@@ -373,21 +376,41 @@ def _plain_field(d, field=None):
     return isinstance(d, dict) and d.get('k') == 'mem' and (field is None or d['n'] == field)
 
 
+def unwrap_conv(d):
+    """Iterator conversions (iterator -> const_iterator) are transparent."""
+    d = strip(d)
+    while isinstance(d, dict) and d.get('k') == 'ctor' and len(d.get('args') or []) == 1 and \
+            'iterator' in (d.get('ty') or ''):
+        d = strip(d['args'][0])
+    return d
+
+
 def _resolve_local(f, d, depth=0):
     """Replace a single-definition local by its initialiser (repeatedly)."""
-    d = strip(d)
+    d = unwrap_conv(d)
     while depth < 6 and isinstance(d, dict) and d.get('k') == 'var' and d.get('vk') == 'local':
         init = f.single_def(d['n'])
         if init is None:
             break
-        d = strip(init)
+        d = unwrap_conv(init)
         depth += 1
     return d
 
 
 def lastname(name):
     """Unqualified function name: `EdgeInputsRange::end` -> `end`, std names via basename."""
-    n = basename(name or '')
+    out = []
+    depth = 0
+    for c in (name or ''):
+        if c == '<':
+            depth += 1
+        elif c == '>':
+            depth -= 1
+        elif depth == 0:
+            out.append(c)
+    n = ''.join(out)
+    if 'operator' in n:
+        return n[n.index('operator'):]
     return n.rsplit('::', 1)[-1]
 
 
@@ -423,7 +446,7 @@ def loops_over(f, field):
         var = lv['n']
         # definitions of the loop variable (initial value)
         inits = [e.get('init') for e in f.events('decl') if e['n'] == var and e.get('init') is not None]
-        init = strip(inits[0]) if inits else None
+        init = unwrap_conv(inits[0]) if inits else None
         rr = _resolve_local(f, r)
         info = {'header': bid, 'body': b['succ'][0], 'exit': b['succ'][1], 'var': var,
                 'line': t.get('line'), 'style': None, 'full': False, 'bound': dstr(rr)}
